@@ -157,6 +157,20 @@ def judge(res, sig, what, d, truth, out, mef_given, mef_channels, statistic, one
                 res.violation(sig + ':transformation-raises', '%s: the returned transformation applied to channel %s raised %s: %s' % (what, ch, type(e).__name__, e), one)
                 return None
             want = np.asarray(ref[0](probe), dtype=float)
+            if ci == 0 and len(mef_channels) > 1:
+                # several channels in one request, listed in another order than they were calibrated in (as list and as tuple):
+                # every channel still gets its own curve
+                for req in (list(reversed(mef_channels)), tuple(mef_channels[1:] + mef_channels[:1])):
+                    try:
+                        many = np.asarray(tf(pr0, req))
+                        for chx in mef_channels:
+                            one_ch = np.asarray(tf(pr0, chx))[:, names.index(chx)]
+                            if many[:, names.index(chx)].tobytes() != one_ch.tobytes():
+                                res.violation(sig + ':request-order', '%s: with channels=%r channel %s is not converted as it is when requested alone' % (what, req, chx), one)
+                                return None
+                    except Exception as e:
+                        res.violation(sig + ':transformation-raises', '%s: the returned transformation with channels=%r raised %s: %s' % (what, req, type(e).__name__, e), one)
+                        return None
             if not np.allclose(got, want, rtol=1e-9, atol=0):
                 res.violation(sig + ':fit-identity', '%s: the transformation of channel %s differs from the fit to the kept statistics/values' % (what, ch), one)
                 return None
@@ -345,6 +359,14 @@ def layer_b_cases(tier, seed):
             continue          # the ladder would not fit into the detector range
         for st in streams:
             yield dict(kind='B', cfg=cfg, stream=st)
+    # several calibrations in one process, on bead files whose equally named channels have different detector ranges and brightness
+    # (a 4-decade integer file, then a floating-point file with beads a hundred times brighter, then the first again), in both orders
+    base = {k_: v[0] for k_, v in dims}
+    cfg_a = dict(base, decades=4)
+    cfg_b = dict(base, container='float', rfi_min=300.0)
+    cfg_c = dict(base, container='float', rfi_min=30.0, n_pop=cfg_a['n_pop'])
+    for seq in ([cfg_a, cfg_b, cfg_a], [cfg_b, cfg_a, cfg_c], [cfg_c, cfg_b]):
+        yield dict(kind='B-sequence', cfgs=seq, stream=streams[0])
 
 
 def spec_of(cfg, stream):
@@ -359,7 +381,8 @@ def spec_of(cfg, stream):
              'increasing': [int(round(200 + 600.0 * j / (k - 1))) for j in range(k)],
              'decreasing': [int(round(800 - 600.0 * j / (k - 1))) for j in range(k)]}[cfg.get('sizes', 'equal')]
     spec = dict(DEFAULT, n_pop=cfg['n_pop'], ratio=cfg['ratio'], cv=cfg['cv'], n_events=sizes, laws=laws,
-                blank=cfg['blank'], saturated=cfg['saturated'], container=cfg['container'], stream=stream, decades=cfg.get('decades', 5))
+                blank=cfg['blank'], saturated=cfg['saturated'], container=cfg['container'], stream=stream, decades=cfg.get('decades', 5),
+                rfi_min=cfg.get('rfi_min', 3.0))
     if cfg['auto'] == 'some' or cfg['blank']:
         laws2 = []
         for (m, b, a) in laws:
@@ -369,7 +392,7 @@ def spec_of(cfg, stream):
     return spec
 
 
-def run_b(c, res):
+def run_b(c, res, one_case=None):
     cfg, stream = c['cfg'], c['stream']
     spec = spec_of(cfg, stream)
     d, truth = load(spec, 'b')
@@ -384,8 +407,8 @@ def run_b(c, res):
             row[u] = None
         mef_given.append(row)
     cl = {'mef': None, 'one': [mef_channels[0]], 'all-fl': list(truth['fl_names']), 'with-scatter': ['FSC-H', 'SSC-H'] + mef_channels}[cfg['cluster']]
-    one = dict(c)
-    what = 'get_transform_fxn(real clustering; %s; noise stream %d)' % (', '.join('%s=%r' % kv for kv in sorted(cfg.items()) if kv[0] != '_dev'), stream)
+    one = dict(one_case) if one_case else dict(c)
+    what = ('(in a sequence of calibrations) ' if one_case else '') + 'get_transform_fxn(real clustering; %s; noise stream %d)' % (', '.join('%s=%r' % kv for kv in sorted(cfg.items()) if kv[0] != '_dev'), stream)
     try:
         with warnings.catch_warnings():
             warnings.simplefilter('ignore')
@@ -499,6 +522,9 @@ def run_case(c):
         return res
     if c['kind'] == 'A':
         run_a(c, res)
+    elif c['kind'] == 'B-sequence':
+        for cfg in c['cfgs']:
+            run_b(dict(kind='B', cfg=cfg, stream=c['stream']), res, one_case=c)
     else:
         run_b(c, res)
     return res
